@@ -139,6 +139,7 @@ func (w *World) DiscoverRoots() error {
 	for _, c := range chain {
 		if c.Handle != nil {
 			add("ANTE", c.Handle)
+			add("ANTE:"+ModuleOf(c.Handle), c.Handle)
 		}
 	}
 	for _, name := range []string{"ValidateBasic", "GetSigners"} {
